@@ -114,12 +114,21 @@ def _keep(text, node):
     return bool({n.id for n in ast.walk(node) if isinstance(n, ast.Name)} & SCHEMA_NAMES)
 
 
+def _keep_with_data(text, node):
+    """also conditions on the presence of a column in the data (twin bookkeeping functions)"""
+    names = {n.id for n in ast.walk(node) if isinstance(n, ast.Name)}
+    return bool(names & (SCHEMA_NAMES | {"col_name", "absent_column_names", "column_names"}))
+
+
 def _rename(text):
-    return text.replace("get_lazyframe_column_names(check_obj)", "check_obj.columns")
+    text = text.replace("get_lazyframe_column_names(check_obj)", "check_obj.columns")
+    if text.endswith(" in check_obj"):
+        text += ".columns"
+    return text
 
 
-def _schema_cond(cfg, nid):
-    return path_condition(cfg, nid, keep=_keep, rename=_rename)
+def _schema_cond(cfg, nid, with_data=False):
+    return path_condition(cfg, nid, keep=_keep_with_data if with_data else _keep, rename=_rename)
 
 
 def _effect_sites(f):
@@ -155,10 +164,10 @@ def r4_twins(ctx):
         ca, cb = cfg_of(fa.node), cfg_of(fb.node)
         sa = {}
         for kind, key, st in _effect_sites(fa):
-            sa.setdefault((kind, key), []).append(_schema_cond(ca, ca.node_of(st).id))
+            sa.setdefault((kind, key), []).append(_schema_cond(ca, ca.node_of(st).id, fname == "collect_column_info"))
         sb = {}
         for kind, key, st in _effect_sites(fb):
-            sb.setdefault((kind, key), []).append(_schema_cond(cb, cb.node_of(st).id))
+            sb.setdefault((kind, key), []).append(_schema_cond(cb, cb.node_of(st).id, fname == "collect_column_info"))
         for k in sorted(set(sa) | set(sb)):
             ga = sorted(sa.get(k, []), key=repr)
             gb = sorted(sb.get(k, []), key=repr)
